@@ -38,7 +38,7 @@ RE_CHAR = re.compile(
     r"'\\[\\\"rnt0']'|'\\x[0-9a-fA-F]{2}'|'\\u\{[0-9a-fA-F]{2,6}\}'|'[^\\]'"
 )
 RE_LINE_COMMENT = re.compile(r"//(?!/|!).*")
-RE_BLOCK_COMMENT = re.compile(r"/\*(?:[^*/]|\*(?!/)|/(?!\*)|(?R))*\*/")
+RE_BLOCK_COMMENT = re.compile(r"/\*(?:(?R)|(?!\*/)(?s:.))*+\*/")
 
 ESCAPES = frozenset(["n", "r", "t", "u", "x", "\\", '"', "0", "'"])
 
